@@ -523,9 +523,8 @@ class RollbackStatus(object):
             self._from_rsp(rsp)
 
     def _from_rsp(self, rsp):
-
-        if rsp.completion_estimate:
-            self.percent_complete = rsp.completion_estimate
+        self.rollback_status = rsp.rollback_status
+        self.percent_complete = rsp.completion_estimate
 
 
 image_header = collections.namedtuple('image_header',
